@@ -4,8 +4,8 @@ package main
 
 import (
 	"fmt"
-	"os"
 	"go/types"
+	"os"
 	"runtime/debug"
 	"sort"
 	"strings"
@@ -489,7 +489,6 @@ func shortPath(p string) string {
 }
 
 var _ = types.Typ
-
 
 // seedFromInit symbolically executes the package initialiser(s) so that the
 // contents of package-level tables are known at function entry. This is sound
